@@ -8,6 +8,7 @@ import (
 	"encoding/json"
 	"fmt"
 	"go/format"
+	"html"
 	"os"
 	"os/exec"
 	"path/filepath"
@@ -242,6 +243,26 @@ func (m *menc) node(n *run.Node) {
 		} else {
 			m.op('F')
 		}
+	case "if":
+		for _, k := range n.Kids {
+			m.node(k)
+		}
+		for _, k := range n.Else {
+			m.node(k)
+		}
+		m.flag(n.Cond == "c")
+		m.num(n.ID)
+		m.num(n.Case)
+		m.num(len(n.Kids))
+		m.num(len(n.Else))
+		m.op('I')
+	case "for":
+		for _, k := range n.Kids {
+			m.node(k)
+		}
+		m.num(n.ID)
+		m.num(len(n.Kids))
+		m.op('O')
 	case "raw":
 		m.push(n.B)
 		m.opt(n.Err)
@@ -360,15 +381,17 @@ func (k *checker) compare() {
 				}
 				m.node(it.model)
 				m.op('z')
-				ids := make([]int, 0, len(it.job.Env))
-				for id := range it.job.Env {
-					ids = append(ids, id)
+				keys := make([]string, 0, len(it.job.Env))
+				for key := range it.job.Env {
+					keys = append(keys, key)
 				}
-				sort.Ints(ids)
-				for _, id := range ids {
-					m.num(id)
-					m.push(it.job.Env[id].S)
-					m.opt(it.job.Env[id].Err)
+				sort.Strings(keys)
+				for _, key := range keys {
+					colon := strings.IndexByte(key, ':')
+					m.push([]byte(key[:colon])) // the loop path, innermost first: "2.0."
+					m.push([]byte(key[colon+1:]))
+					m.push(it.job.Env[key].S)
+					m.opt(it.job.Env[key].Err)
 					m.op('V')
 				}
 				last = it.progID
@@ -651,12 +674,57 @@ func randComp(r *rng.R, depth int, maxLit int, nextID *int) *run.Node {
 func randBody(r *rng.R, depth int, maxLit int, nextID *int) []*run.Node {
 	var body []*run.Node
 	for i := 1 + r.Intn(5); i > 0; i-- {
-		switch r.Intn(5) {
+		switch r.Intn(8) {
 		case 0, 1:
 			body = append(body, &run.Node{K: "lit", B: randText(r, maxLit)})
 		case 2:
 			*nextID++
 			body = append(body, &run.Node{K: "expr", ID: *nextID, File: "hand.templ", Line: 1 + r.Intn(90), Col: r.Intn(70)})
+		case 3:
+			if depth <= 0 {
+				body = append(body, &run.Node{K: "lit", B: randText(r, maxLit)})
+				continue
+			}
+			// if / else-if / else, a conditional or boolean attribute (one literal, no else)
+			*nextID++
+			n := &run.Node{K: "if", Cond: "b", ID: *nextID}
+			switch r.Intn(4) {
+			case 0:
+				n.Kids = []*run.Node{{K: "lit", B: randText(r, maxLit)}}
+			case 1:
+				n.Kids = randBody(r, depth-1, maxLit, nextID)
+				*nextID++
+				n.Else = []*run.Node{{K: "if", Cond: "b", ID: *nextID, Kids: randBody(r, depth-1, maxLit, nextID), Else: randBody(r, depth-1, maxLit, nextID)}}
+			default:
+				n.Kids = randBody(r, depth-1, maxLit, nextID)
+				if r.Bool() {
+					n.Else = randBody(r, depth-1, maxLit, nextID)
+				}
+			}
+			body = append(body, n)
+		case 4:
+			if depth <= 0 {
+				body = append(body, &run.Node{K: "lit", B: randText(r, maxLit)})
+				continue
+			}
+			// switch with 1-3 cases and an optional default
+			*nextID++
+			id := *nextID
+			var chain []*run.Node
+			if r.Bool() {
+				chain = randBody(r, depth-1, maxLit, nextID)
+			}
+			for k := r.Intn(3); k >= 0; k-- {
+				chain = []*run.Node{{K: "if", Cond: "c", ID: id, Case: k, Kids: randBody(r, depth-1, maxLit, nextID), Else: chain}}
+			}
+			body = append(body, chain...)
+		case 5:
+			if depth <= 0 {
+				body = append(body, &run.Node{K: "lit", B: randText(r, maxLit)})
+				continue
+			}
+			*nextID++
+			body = append(body, &run.Node{K: "for", ID: *nextID, Kids: randBody(r, depth-1, maxLit, nextID)})
 		default:
 			body = append(body, randComp(r, depth, maxLit, nextID))
 		}
@@ -676,6 +744,9 @@ func injectCompFailure(r *rng.R, prog *run.Node) {
 		for _, kd := range n.Kids {
 			walk(kd)
 		}
+		for _, kd := range n.Else {
+			walk(kd)
+		}
 	}
 	walk(prog)
 	if len(cands) == 0 {
@@ -692,16 +763,141 @@ func injectCompFailure(r *rng.R, prog *run.Node) {
 	n.Ops = append(ops, n.Ops[at:]...)
 }
 
-func randEnv(r *rng.R, n int, failing int) map[int]run.Val {
-	env := map[int]run.Val{}
-	for i := 1; i <= n; i++ {
-		v := run.Val{S: randText(r, 12)}
-		if i == failing {
-			v.Err = 40 + i
+// buildEnv answers every oracle the program can ask: string expressions, conditions, switch tags and iteration
+// counts, for every enclosing loop iteration. With failExpr, one string expression evaluation that the program
+// reaches - chosen uniformly, so also "in iteration k of a loop" - returns an error.
+func buildEnv(r *rng.R, prog *run.Node, failExpr bool, maxIter int) run.Env {
+	env := run.Env{}
+	var reached []string
+	var walk func(n *run.Node, path []int, live bool)
+	walkAll := func(ns []*run.Node, path []int, live bool) {
+		for _, kd := range ns {
+			walk(kd, path, live)
 		}
-		env[i] = v
+	}
+	walk = func(n *run.Node, path []int, live bool) {
+		key := run.Key(path, n.ID)
+		switch n.K {
+		case "expr":
+			if _, ok := env[key]; !ok {
+				env[key] = run.Val{S: randText(r, 12)}
+			}
+			if live {
+				reached = append(reached, key)
+			}
+		case "if":
+			if _, ok := env[key]; !ok {
+				if n.Cond == "c" {
+					env[key] = run.Val{S: []byte(strconv.Itoa(r.Intn(4)))}
+				} else {
+					env[key] = run.Val{S: []byte(strconv.Itoa(r.Intn(2)))}
+				}
+			}
+			taken := string(env[key].S) == "1"
+			if n.Cond == "c" {
+				taken = string(env[key].S) == strconv.Itoa(n.Case)
+			}
+			walkAll(n.Kids, path, live && taken)
+			walkAll(n.Else, path, live && !taken)
+			return
+		case "for":
+			cnt := r.Intn(maxIter + 1)
+			if r.Intn(4) == 0 {
+				cnt = 0
+			}
+			env[key] = run.Val{S: []byte(strconv.Itoa(cnt))}
+			for it := 0; it < cnt; it++ {
+				walkAll(n.Kids, append([]int{it}, path...), live)
+			}
+			return
+		}
+		walkAll(n.Kids, path, live)
+	}
+	walk(prog, nil, true)
+	if failExpr && len(reached) > 0 {
+		key := reached[r.Intn(len(reached))]
+		v := env[key]
+		v.Err = 40 + r.Intn(9)
+		env[key] = v
 	}
 	return env
+}
+
+type cfVariant struct {
+	env      run.Env
+	failComp int
+	what     string
+}
+
+// cfEnv answers the oracles of probe template cf.
+func cfEnv(b101, b102, b103, b104 bool, outer int, inner func(k int) int, tag int, failKey string) run.Env {
+	env := run.Env{}
+	bit := func(b bool) []byte {
+		if b {
+			return []byte("1")
+		}
+		return []byte("0")
+	}
+	for i, b := range []bool{b101, b102, b103, b104} {
+		env[run.Key(nil, 101+i)] = run.Val{S: bit(b)}
+	}
+	for _, i := range []int{1, 2, 4, 5} {
+		env[run.Key(nil, i)] = run.Val{S: []byte(fmt.Sprintf("s%d<&>", i))}
+	}
+	env[run.Key(nil, 201)] = run.Val{S: []byte(strconv.Itoa(outer))}
+	env[run.Key(nil, 203)] = run.Val{S: []byte(strconv.Itoa(outer))}
+	env[run.Key(nil, 301)] = run.Val{S: []byte(strconv.Itoa(tag))}
+	for k := 0; k < outer; k++ {
+		p := []int{k}
+		env[run.Key(p, 3)] = run.Val{S: []byte(fmt.Sprintf("item%d\"", k))}
+		env[run.Key(p, 7)] = run.Val{S: []byte(fmt.Sprintf("o%d", k))}
+		env[run.Key(p, 105)] = run.Val{S: bit(k%2 == 1)}
+		n := inner(k)
+		env[run.Key(p, 202)] = run.Val{S: []byte(strconv.Itoa(n))}
+		for j := 0; j < n; j++ {
+			env[run.Key([]int{j, k}, 6)] = run.Val{S: []byte(fmt.Sprintf("%d.%d", k, j))}
+		}
+	}
+	if failKey != "" {
+		v := env[failKey]
+		v.Err = 70 + len(failKey)
+		env[failKey] = v
+	}
+	return env
+}
+
+func cfVariants() []cfVariant {
+	none := func(int) int { return 0 }
+	kmod := func(k int) int { return k % 3 }
+	two := func(int) int { return 2 }
+	vs := []cfVariant{
+		{cfEnv(true, true, true, false, 3, kmod, 0, ""), 0, "if-branch, 3 iterations, case 0, attributes on"},
+		{cfEnv(false, false, false, true, 1, two, 1, ""), 0, "else-if branch, 1 iteration, case 1, attributes off"},
+		{cfEnv(false, true, false, false, 0, none, 2, ""), 0, "else branch, 0 iterations, default case"},
+		{cfEnv(true, false, true, true, 5, kmod, 7, ""), 0, "5 iterations with inner loops, default case"},
+		{cfEnv(true, false, true, false, 3, kmod, 0, ""), 1, "component after the switch fails"},
+		{cfEnv(true, false, true, false, 3, kmod, 0, ""), 2, "component inside the loop fails (first iteration)"},
+		{cfEnv(true, false, true, false, 2, none, 0, ""), 3, "component that ends the second loop's body fails"},
+	}
+	fails := []struct {
+		key  string
+		what string
+	}{
+		{run.Key(nil, 1), "expression in the if-branch fails"},
+		{run.Key(nil, 4), "expression in case 0 fails"},
+		{run.Key([]int{0}, 3), "loop expression fails in iteration 0"},
+		{run.Key([]int{2}, 3), "loop expression fails in iteration 2"},
+		{run.Key([]int{1, 2}, 6), "inner loop expression fails in iteration 2/1"},
+		{run.Key([]int{3}, 7), "second loop's expression fails in its last iteration"},
+	}
+	for _, f := range fails {
+		vs = append(vs, cfVariant{cfEnv(true, true, true, false, 4, func(k int) int { return k }, 0, f.key), 0, f.what})
+	}
+	vs = append(vs,
+		cfVariant{cfEnv(false, false, false, true, 2, none, 1, run.Key(nil, 2)), 0, "expression in the else-if branch fails"},
+		cfVariant{cfEnv(false, false, false, false, 2, none, 1, run.Key(nil, 5)), 0, "expression in the conditional attribute's else fails"},
+		cfVariant{cfEnv(true, false, false, false, 2, none, 1, run.Key(nil, 5)), 0, "failing expression sits in the branch not taken"})
+	return vs
 }
 
 // offsets at which the destination is made to fail
@@ -750,34 +946,37 @@ func (k *checker) add(family string, cap int, progID string, model *run.Node, j 
 	return it
 }
 
-func docLen(n *run.Node, env map[int]run.Val) int {
-	// an upper estimate of the document length (escaping at most x6), only used to choose offsets
+// docLen is the document length when nothing fails (both branches of an if are counted), only used to choose fault offsets.
+func docLen(n *run.Node, env run.Env, path []int) int {
+	sum := func(ns []*run.Node, path []int) int {
+		t := 0
+		for _, kd := range ns {
+			t += docLen(kd, env, path)
+		}
+		return t
+	}
 	switch n.K {
 	case "lit", "raw":
 		return len(n.B)
 	case "expr":
-		return 6 * len(env[n.ID].S)
+		return len(html.EscapeString(string(env[run.Key(path, n.ID)].S)))
 	case "func":
 		t := 0
 		for _, o := range n.Ops {
 			t += len(o.B)
 		}
 		return t
+	case "if":
+		return sum(n.Kids, path) + sum(n.Else, path)
+	case "for":
+		cnt, _ := strconv.Atoi(string(env[run.Key(path, n.ID)].S))
+		t := 0
+		for it := 0; it < cnt; it++ {
+			t += sum(n.Kids, append([]int{it}, path...))
+		}
+		return t
 	}
-	t := 0
-	for _, kd := range n.Kids {
-		t += docLen(kd, env)
-	}
-	return t
-}
-
-func countExprs(n *run.Node, ids map[int]bool) {
-	if n.K == "expr" {
-		ids[n.ID] = true
-	}
-	for _, kd := range n.Kids {
-		countExprs(kd, ids)
-	}
+	return sum(n.Kids, path)
 }
 
 // sweep adds, for one program and environment, a fault sweep; every failing render is followed, now and then, by a
@@ -856,18 +1055,23 @@ func Run(c *core.Ctx) {
 		id := 0
 		maxLit := []int{20, 60, 1500, 5000}[r.Intn(4)]
 		prog := &run.Node{K: "templ", Guard: r.Intn(5) != 0, Kids: randBody(r, 2, maxLit, &id)}
-		failing := 0
+		failing := false
 		switch r.Intn(3) {
 		case 0:
-			if id > 0 {
-				failing = 1 + r.Intn(id)
-			}
+			failing = true
 		case 1:
 			injectCompFailure(r, prog)
 		}
-		env := randEnv(r, id, failing)
+		env := buildEnv(r, prog, failing, 3)
 		pid := fmt.Sprintf("hand%d", p)
-		dl := docLen(prog, env)
+		dl := docLen(prog, env, nil)
+		if dl > c.N(60000, 200000) { // loops over large literals: bound the documents of the in-process family
+			env = buildEnv(r, prog, failing, 1)
+			dl = docLen(prog, env, nil)
+		}
+		if dl > c.N(60000, 200000) {
+			continue
+		}
 		offs := offsets(r, dl, 4096, false, c.N(4, 30))
 		k.sweep("hand-built in process (4096)", 4096, pid, prog, func() *run.Job { return &run.Job{Prog: prog, Env: env} }, offs, []int{1, 2, 3}, 2)
 		jc := &run.Job{Prog: prog, Env: env, Cancel: 1 + r.Intn(2), Tag: pid + " cancelled context"}
@@ -900,18 +1104,16 @@ func Run(c *core.Ctx) {
 		for p := 0; p < nSmall; p++ {
 			id := 0
 			prog := &run.Node{K: "templ", Guard: r.Intn(5) != 0, Kids: randBody(r, 2, []int{6, 14, 40}[r.Intn(3)], &id)}
-			failing := 0
+			failing := false
 			switch r.Intn(3) {
 			case 0:
-				if id > 0 {
-					failing = 1 + r.Intn(id)
-				}
+				failing = true
 			case 1:
 				injectCompFailure(r, prog)
 			}
-			env := randEnv(r, id, failing)
+			env := buildEnv(r, prog, failing, 3)
 			pid := fmt.Sprintf("handsmall%d", p)
-			dl := docLen(prog, env)
+			dl := docLen(prog, env, nil)
 			if dl > 160 {
 				dl = 160
 			}
@@ -931,11 +1133,11 @@ func Run(c *core.Ctx) {
 			huge  bool
 		}
 		probes := []pv{{"small", 2, 0, false, false}, {"nested", 4, 2, false, false}, {"fl", 3, 2, false, false}, {"once", 2, 0, false, false}, {"jn", 2, 3, false, false},
-			{"big", 3, 2, true, false}, {"edge", 2, 1, true, false}, {"huge", 2, 1, true, true}}
+			{"cf", 0, 3, false, false}, {"big", 3, 2, true, false}, {"edge", 2, 1, true, false}, {"huge", 2, 1, true, true}}
 		for _, pr := range probes {
 			// environments: all fine; each expression failing in turn; each component failing in turn
 			type variant struct {
-				env   map[int]run.Val
+				env   run.Env
 				comps map[int]*run.Node
 				what  string
 			}
@@ -953,19 +1155,28 @@ func Run(c *core.Ctx) {
 				}
 				return cs
 			}
-			mkEnv := func(fail int) map[int]run.Val {
-				env := map[int]run.Val{}
+			mkEnv := func(fail int) run.Env {
+				env := run.Env{}
 				for i := 1; i <= 4; i++ {
 					v := run.Val{S: []byte(fmt.Sprintf("v%d <&\"'> é", i))}
 					if i == fail {
 						v.Err = 50 + i
 					}
-					env[i] = v
+					env[run.Key(nil, i)] = v
 				}
 				return env
 			}
 			variants := []variant{{mkEnv(0), mkComps(0), "ok"}}
-			for e := 1; e <= 4; e++ {
+			if pr.name == "cf" {
+				// control flow: arguments selecting every branch, 0 / 1 / many iterations, nested loops, every switch
+				// arm, the conditional and boolean attributes on and off, an erroring expression in each position
+				// including iteration k of the outer and of the inner loop
+				variants = nil
+				for _, o := range cfVariants() {
+					variants = append(variants, variant{o.env, mkComps(o.failComp), o.what})
+				}
+			}
+			for e := 1; e <= 4 && pr.name != "cf"; e++ {
 				variants = append(variants, variant{mkEnv(e), mkComps(0), fmt.Sprintf("expr%d fails", e)})
 			}
 			for cpi := 1; cpi <= pr.nComp; cpi++ {
@@ -980,7 +1191,7 @@ func Run(c *core.Ctx) {
 				}
 				pid := fmt.Sprintf("probe:%s/%s", pr.name, v.what)
 				mk := func() *run.Job { return &run.Job{Probe: pr.name, Env: v.env, Comps: v.comps} }
-				dl := docLen(model, v.env)
+				dl := docLen(model, v.env, nil)
 				for _, capv := range []int{4096, smallCap} {
 					fam := fmt.Sprintf("generated probes (%d)", capv)
 					m0 := len(k.items)
@@ -1016,7 +1227,7 @@ func Run(c *core.Ctx) {
 							}
 						}
 					default:
-						if vi == 0 || !c.Quick() {
+						if vi == 0 || !c.Quick() || (pr.name == "cf" && vi < 3) {
 							offs = offsets(r, dl, capv, true, 0)
 							modes = []int{1, 2, 3, 4}
 							kinds = c.N(2, 4)
@@ -1043,43 +1254,31 @@ func Run(c *core.Ctx) {
 		// column just past it
 		posOK := true
 		srcLines := strings.Split(src, "\n")
-		for name, t := range g.templates {
-			_ = name
-			var walk func(ss []rawStmt)
-			walk = func(ss []rawStmt) {
-				for _, s := range ss {
-					if s.kind != "expr" {
-						continue
-					}
-					txt := fmt.Sprintf("v.S(%d)", s.exprID)
-					ok := s.file == probeFile && s.line >= 1 && s.line <= len(srcLines) && s.col >= len(txt) && s.col <= len(srcLines[s.line-1]) &&
-						srcLines[s.line-1][s.col-len(txt):s.col] == txt
-					c.Count("position:" + name + ":" + txt)
-					if !ok {
-						posOK = false
-						c.Fail("property", "expression error position", "expression-error-position-outside-expression",
-							map[string]any{"template": name, "expression": txt, "file": s.file, "line": s.line, "col": s.col},
-							"the templ.Error the generated code returns for this expression does not carry the template file name and a position inside the expression")
-					}
+		var walkPos func(name string, ss []rawStmt)
+		walkPos = func(name string, ss []rawStmt) {
+			for _, s := range ss {
+				walkPos(name, s.thn)
+				walkPos(name, s.els)
+				if s.kind != "expr" {
+					continue
+				}
+				txt := fmt.Sprintf("%s.S(%d)", s.recv, s.exprID)
+				ok := s.file == probeFile && s.line >= 1 && s.line <= len(srcLines) && s.col >= len(txt) && s.col <= len(srcLines[s.line-1]) &&
+					srcLines[s.line-1][s.col-len(txt):s.col] == txt
+				c.Count("position:" + name + ":" + txt + ":" + strconv.Itoa(s.line))
+				if !ok {
+					posOK = false
+					c.Fail("property", "expression error position", "expression-error-position-outside-expression",
+						map[string]any{"template": name, "expression": txt, "file": s.file, "line": s.line, "col": s.col},
+						"the templ.Error the generated code returns for this expression does not carry the template file name and a position inside the expression")
 				}
 			}
-			walk(t.stmts)
+		}
+		for name, t := range g.templates {
+			walkPos(name, t.stmts)
 		}
 		for _, b := range g.blocks {
-			for _, s := range b.stmts {
-				if s.kind == "expr" {
-					txt := fmt.Sprintf("v.S(%d)", s.exprID)
-					ok := s.file == probeFile && s.line >= 1 && s.line <= len(srcLines) && s.col >= len(txt) && s.col <= len(srcLines[s.line-1]) &&
-						srcLines[s.line-1][s.col-len(txt):s.col] == txt
-					c.Count("position:block:" + txt + strconv.Itoa(s.line))
-					if !ok {
-						posOK = false
-						c.Fail("property", "expression error position", "expression-error-position-outside-expression",
-							map[string]any{"template": "(block)", "expression": txt, "file": s.file, "line": s.line, "col": s.col},
-							"the templ.Error the generated code returns for this expression does not carry the template file name and a position inside the expression")
-					}
-				}
-			}
+			walkPos("(block)", b.stmts)
 		}
 		c.Oblige("correspondence", "every probe expression's recorded FileName/Line/Col lies at that expression in the template source", posOK, "")
 
@@ -1100,6 +1299,16 @@ func Run(c *core.Ctx) {
 	k.compare()
 	c.Extra["seconds_model_and_compare"] = time.Since(tCmp).Seconds()
 	c.Extra["jobs"] = len(k.items)
+	perProbe := map[string]map[string]int{}
+	for _, it := range k.items {
+		if it.job.Probe != "" {
+			if perProbe[it.job.Probe] == nil {
+				perProbe[it.job.Probe] = map[string]int{}
+			}
+			perProbe[it.job.Probe][resClass(it.obs.Res)]++
+		}
+	}
+	c.Extra["probe_results"] = perProbe
 	for _, it := range k.items {
 		if it.obs.Res != "nil" && it.job.Probe != "" && len(c.Samples) < 4 {
 			c.Sample(map[string]any{"tag": it.job.Tag, "family": it.family, "sink": it.job.Sink, "result": it.obs.Res, "received_bytes": len(it.obs.Out)})
